@@ -9,7 +9,7 @@ func init() {
 			"exactly the coins added to the pay-out list are added to the gauge's distributed total, which is booked together with one filled epoch on every successful distribution; pay-outs are sent from the incentives module to the index-aligned receiver list; upcoming gauges become active at their start time before distribution.",
 		NotCovered:  []string{"sum over epochs ≤ deposit and module balance ≥ remainders over histories", "group gauges / volume splitting", "concentrated no-lock gauges' emission inside CL (C08)"},
 		Assumptions: []string{"bank SendCoinsFromModuleToManyAccounts pays inputs[i] to addrs[i]"},
-		MinObl:      40,
+		MinObl:      42,
 		Run:         runC09,
 	})
 }
@@ -57,6 +57,10 @@ func runC09(c *rules.Ctx) {
 	c.CheckedCallOpt(DI, "incentiveskeeper.Keeper.distributeInternal", nil, "a failing gauge fails the distribution", "", false)
 	c.CheckedCallOpt(DI, "incentiveskeeper.Keeper.distributeSyntheticInternal", nil, "a failing synthetic gauge fails the distribution", "", false)
 	c.Order(DI, "incentiveskeeper.Keeper.doDistributionSends", "incentiveskeeper.Keeper.checkFinishDistribution", "gauges are finished only after the pay-outs were made")
+	// ---- the denominator of the pro-rata share: each lock contributes its amount of the gauge's denom
+	const SL = "x/lockup/types.SumLocksByDenom"
+	c.BranchOn(SL, "eq(len(elem(locks).Coins),1)", []string{"ge(len(elem(locks).Coins),_)", "gt(len(elem(locks).Coins),_)"}, "the single-coin shortcut is taken only for locks with exactly one coin")
+	c.CallArg(SL, "big.Int.Add", 2, "sdkmath.Int.BigIntMut(phi(idx(elem(locks).Coins,0).Amount, sdk.Coins.AmountOfNoDenomValidation(elem(locks).Coins,denom)))", "the sum adds the lock's only coin, or for multi-coin locks its amount of the requested denom")
 	// epoch hook
 	c.CheckedCall("x/incentives/keeper.Hooks.AfterEpochEnd", "incentiveskeeper.Keeper.AfterEpochEnd", []string{"h.k", "ctx", "epochIdentifier", "epochNumber"}, "the epochs module sees the keeper's verdict: the hook wrapper fails when the keeper's epoch step fails (a half-done distribution is rolled back)", "")
 	const H = K + "AfterEpochEnd"
